@@ -20,6 +20,9 @@ pub struct Case {
     pub damage: Vec<crate::c17::Damage>,
     #[serde(default)]
     pub order: Vec<u8>,
+    /// reads into a target with limited room: (blob index, room selector, sink mode)
+    #[serde(default)]
+    pub sinks: Vec<(u8, u8, u8)>,
 }
 
 fn blob_program(s: &mut Src) -> Program {
@@ -51,10 +54,35 @@ fn fixed_lengths(t: Tier) -> Vec<Case> {
             }
             ops.push(Op::Blob(BlobSpec { len, seed: len as u64 * 2 + 1, chunk: 0, xmlish: false }));
             ops.push(Op::Blob(BlobSpec { len: 5, seed: 99, chunk: 0, xmlish: false }));
-            out.push(Case { program: Program { guid: "{len-sweep}".into(), ops, end: End::Finalize }, perturb: vec![], damage: vec![], order: vec![] });
+            out.push(Case { program: Program { guid: "{len-sweep}".into(), ops, end: End::Finalize }, perturb: vec![], damage: vec![], order: vec![], sinks: vec![(1, (len % 7) as u8, (len % 3) as u8)] });
+        }
+    }
+    // blobs and an image close to the end of a big file (hundreds of pages in front of them)
+    for (k, big) in [310_000u32, 655_360, 1_000_003].iter().enumerate() {
+        for tail in [0u32, 1, 37, 1016, 2500] {
+            let mut s = Src::from_seed(7000 + k as u64 * 10 + tail as u64);
+            let ops = vec![
+                Op::Blob(BlobSpec { len: *big, seed: 5 + k as u64, chunk: 0, xmlish: false }),
+                Op::Image(gen::image_spec(&mut s, 1)),
+                Op::Blob(BlobSpec { len: tail, seed: 11, chunk: 0, xmlish: false }),
+            ];
+            out.push(Case { program: Program { guid: "{big-file}".into(), ops, end: End::Finalize }, perturb: vec![], damage: vec![], order: vec![], sinks: vec![(1, 3, 0), (0, 2, 1)] });
         }
     }
     out
+}
+
+/// Room of a limited target relative to the blob length `len`.
+fn room(sel: u8, len: u64) -> usize {
+    (match sel % 7 {
+        0 => 0,
+        1 => len.saturating_sub(1),
+        2 => len / 2,
+        3 => len,
+        4 => len + 1,
+        5 => len.saturating_sub(1 + len % 1020),
+        _ => len.saturating_sub(70_000),
+    }) as usize
 }
 
 impl Check for C06 {
@@ -67,8 +95,10 @@ impl Check for C06 {
          Ok(len) and exactly the written bytes for every descriptor, each image's blob/mask descriptors lead to that image's data; for perturbed \
          descriptors Blob::new(offset, len') the result is Err or exactly len' bytes following the header; on files with damaged pages (1 in 4 \
          cases) every blob read of a generated sequence on one reader fails or returns exactly the written bytes; 1 in 4 blobs is fed from a \
-         source that returns short reads. Non-trivial: blob spanning >= 2 pages, \
-         or ending within 4 bytes of a page end, or length 0, or perturbed descriptor."
+         source that returns short reads; blobs are also extracted into targets with limited room (error / Ok(0) / short writes when full, room \
+         0, len-1, len/2, len, len+1, ...): Ok(n) only if the target received all n = len written bytes, a failure hands over only a prefix, \
+         and the next read on the same reader is exact; 15 enumerated big files (0.3 - 1 MB blob in front of an image and a last blob). Non-trivial: blob spanning >= 2 pages, \
+         or ending within 4 bytes of a page end, or length 0, or perturbed descriptor, or limited target."
             .into()
     }
     fn budget(t: Tier) -> usize {
@@ -91,7 +121,8 @@ impl Check for C06 {
         } else {
             (vec![], vec![])
         };
-        Case { program, perturb, damage, order }
+        let sinks = (0..s.below(4)).map(|_| (s.byte(), s.below(7) as u8, s.below(3) as u8)).collect();
+        Case { program, perturb, damage, order, sinks }
     }
     fn run(case: &Case) -> Verdict {
         let mut v = Verdict::new();
@@ -176,6 +207,62 @@ impl Check for C06 {
                 }
                 if !exp.images.is_empty() {
                     v.label("images");
+                }
+            }
+        }
+        // targets with limited room: Ok(n) means the target really received all n bytes of the blob; after a
+        // failed extraction the same reader still delivers every blob exactly
+        if !case.sinks.is_empty() && !tr.blobs.is_empty() {
+            let r = guard(|| -> Result<Vec<&'static str>, String> {
+                let mut labels = Vec::new();
+                let mut rd = E57Reader::new(MemDev::with_data(bytes.clone())).map_err(|e| format!("open: {e}"))?;
+                for (which, sel, mode) in &case.sinks {
+                    let k = *which as usize % tr.blobs.len();
+                    let (off, len) = tr.blobs[k];
+                    let want = free[k].bytes();
+                    let mut sink = gen::LimitSink::new(room(*sel, len), *mode);
+                    let res = rd.blob(&Blob::new(off, len), &mut sink);
+                    match res {
+                        Ok(n) => {
+                            if n != len || sink.got.len() as u64 != n || sink.got != want {
+                                return Err(format!("blob {k} (len {len}) into a target with room for {} bytes: Ok({n}) although the target received {} bytes", sink.cap, sink.got.len()));
+                            }
+                            labels.push("limited_target_fits");
+                        }
+                        Err(_) => {
+                            if sink.cap as u64 >= len {
+                                return Err(format!("blob {k} (len {len}) into a target with room for {} bytes failed", sink.cap));
+                            }
+                            if sink.got[..] != want[..sink.got.len()] {
+                                return Err(format!("blob {k}: the {} bytes handed to the target before the failure are not the start of the blob", sink.got.len()));
+                            }
+                            labels.push("limited_target_overflows");
+                        }
+                    }
+                    // and the next ordinary read on this reader is exact
+                    let k2 = (k + 1) % tr.blobs.len();
+                    let (off2, len2) = tr.blobs[k2];
+                    let mut out = Vec::new();
+                    let n = rd.blob(&Blob::new(off2, len2), &mut out).map_err(|e| format!("blob {k2} after an extraction into a limited target: {e}"))?;
+                    if n != len2 || out != free[k2].bytes() {
+                        return Err(format!("blob {k2} after an extraction into a limited target: Ok({n}) with wrong bytes"));
+                    }
+                }
+                Ok(labels)
+            });
+            match r {
+                Err(p) => {
+                    v.fail(format!("reader panicked (limited target): {p}"));
+                    return v;
+                }
+                Ok(Err(e)) => {
+                    v.fail(e);
+                    return v;
+                }
+                Ok(Ok(labels)) => {
+                    for l in labels {
+                        v.nt(l);
+                    }
                 }
             }
         }
